@@ -43,7 +43,7 @@ Reasons == {"", "r1"}
 Deltas == {[study |-> OneCell(c, v), t |-> 0, t2 |-> 0, trial |-> NoMeta] : c \in Cells, v \in Vals}
      \cup {[study |-> NoMeta, t |-> t, t2 |-> 0, trial |-> OneCell(c, v)] : c \in Cells, v \in Vals, t \in Ids}
      \cup {[study |-> OneCell(c, v), t |-> t, t2 |-> t2, trial |-> OneCell(c2, v)] :
-              c \in Cells, c2 \in Cells, v \in Vals, t \in Ids, t2 \in {0} \cup Ids}
+              c \in Cells, c2 \in Cells, v \in Vals, t \in Ids, t2 \in {0, -1} \cup Ids}
 
 On(k) == k \in Kinds
 
@@ -76,7 +76,10 @@ AGetOperation == En("GetOperation") /\ \E s \in Studies, w \in Clients, i \in 1.
         Do([rpc |-> "GetOperation", s |-> s, w |-> w, i |-> i])
 ACheckEarlyStopping == En("CheckEarlyStopping") /\ \E s \in Studies, t \in Ids, env \in StopEnvs :
         Do([rpc |-> "CheckEarlyStopping", s |-> s, t |-> t, env |-> env])
-AUpdateMetadata == En("UpdateMetadata") /\ \E s \in Studies, d \in Deltas : Do([rpc |-> "UpdateMetadata", s |-> s, d |-> d])
+\* which error wins when a malformed id comes together with a missing trial is left open: t2 = -1 only with t present
+AUpdateMetadata == En("UpdateMetadata") /\ \E s \in Studies, d \in Deltas :
+        /\ (d.t2 = -1 => StudyPresent(st, s) /\ Present(st, s, d.t))
+        /\ Do([rpc |-> "UpdateMetadata", s |-> s, d |-> d])
 AListOptimalTrials == En("ListOptimalTrials") /\ \E s \in Studies : Do([rpc |-> "ListOptimalTrials", s |-> s])
 
 Next == \/ ACreateStudy \/ AGetStudy \/ AListStudies \/ ADeleteStudy \/ ASetStudyState \/ ACreateTrial \/ AGetTrial
